@@ -3,8 +3,10 @@
 MC  : specs/selthread/SelectorThread.tla (PlusCal: event-loop thread, selector thread, environment).
       Safety (MC_SelectorThread.cfg): exactly one select token (at most one select outstanding, the
       assertion of _start_select), mutex discipline, no lost notify, callbacks only in event-loop
-      steps, no stale sleep (no lost registration), close joins a stopped thread, deadlock freedom
+      steps, no stale sleep (no lost registration), close joins a stopped thread, the EBADF fallback
+      always finds the waker readable (the selector thread never dies), deadlock freedom
       (ENABLED-based invariant + TLC's deadlock check with the two resting states stuttering).
+      Quick runs safety + liveness in one TLC invocation (MCQ_SelectorThread.cfg).
       Liveness (MCL_SelectorThread.cfg, weak fairness of the selector thread and of the obligatory
       event-loop steps): a registered fd that stays ready is dispatched again and again; close /
       atexit terminates with the selector thread stopped.
@@ -23,10 +25,13 @@ S2C : TLC `-simulate` behaviours of the same specification (full states; with an
       do) are resolved by the behaviour.  The complete logs (forced prefix + free-mode epilogue)
       also go through the TLC trace validation.
 
-Binding demonstrated during development (scratch worktree, see notes/selthread.md): dropping
-_wake_selector() from add_writer / remove_reader, dropping notify() in close(), running
-_handle_select directly on the selector thread, not clearing _select_args, skipping join() -
-each is reported as a VIOLATION by the trace validation (and the hanging ones by the watchdog).
+Binding demonstrated during development (scratch worktree /tmp/wt-selthread, notes/selthread.md): dropping
+_wake_selector() from add_writer, dropping notify() in close(), calling _start_select() before the
+dispatch loop, skipping join(), testing _closing_selector only before waiting, inverting the EBADF
+fallback, and skipping the wake-up while _select_args is still set - each is reported as a VIOLATION
+(trace rejection and/or forcing divergence; the hanging ones also by the watchdog, the crashing ones
+as exceptions on the selector thread).  Spec-level mutations (no wake after a registration change,
+no notify, no wake in close) are found by TLC (NoStaleSleep / NoLostNotify / NoDeadlock + liveness).
 """
 import hashlib
 import json
@@ -66,14 +71,13 @@ def check_runs(ctx, runs, nf, label="c2s"):
     return traces
 
 
-def sim_behaviours(ctx, num, depth, hows, seed):
+def sim_behaviours(ctx, num, depth, seed):
     """TLC -simulate walks of SelectorThread.tla as lists of (action, state, next state)."""
     import os
     import shutil
     from harness import tlc
     spec_dir = os.path.join(framework.VERIF, "specs", SPEC)
-    cfgp = framework.make_cfg(os.path.join(spec_dir, "Sim_SelectorThread.cfg"), {"Hows": hows}, ctx.scratch,
-                              "Sim_%d.cfg" % seed)
+    cfgp = os.path.join(spec_dir, "Sim_SelectorThread.cfg")
     d = os.path.join(ctx.scratch, "sim_%d" % seed)
     os.makedirs(d)
     r = tlc.run(spec_dir, "SelectorThread", cfgp, workers=1, timeout=ctx.pick(300, 900),
@@ -91,8 +95,8 @@ def sim_behaviours(ctx, num, depth, hows, seed):
         if steps:
             out.append(steps)
     shutil.rmtree(d, ignore_errors=True)
-    ctx.cov["checker_cmd"].append("tlc -simulate num=%d -depth %d -config Sim_SelectorThread.cfg SelectorThread (Hows=%s)"
-                                  % (num, depth, hows))
+    ctx.cov["checker_cmd"].append("tlc -simulate num=%d -depth %d -config Sim_SelectorThread.cfg SelectorThread"
+                                  % (num, depth))
     return out
 
 
@@ -148,22 +152,16 @@ def run(ctx):
     t0 = time.time()
     # 2. code -> spec: recorded runs of the real SelectorThread validated by TLC
     nf = 3
-    n = ctx.pick(60, 2000)
+    n = ctx.pick(50, 1500)
     runs = record_runs(ctx, n, nf, nops=12, nenv=8, base=ctx.seed * 1000003 + 17)
     ctx._phase("record", t0)
     t0 = time.time()
     # 3. spec -> code: TLC behaviours forced on the real threads
-    k = ctx.pick(240, 6000)
+    k = ctx.pick(200, 3000)
     depth = ctx.pick(100, 160)
-    behs = sim_behaviours(ctx, k, depth, '{"close", "atexit"}', ctx.seed + 11)
-    # every second behaviour is cut before its first shutdown step (a prefix of a behaviour is a
-    # behaviour): the scenario then goes on in free mode and is closed by the epilogue
-    for i in range(0, len(behs), 2):
-        cut = [j for j, (a, s_, t_) in enumerate(behs[i]) if t_["closeCalled"]]
-        if cut and cut[0] > 0:
-            behs[i] = behs[i][:cut[0]]
-    if not ctx.quick:
-        behs += sim_behaviours(ctx, k // 2, depth, "{}", ctx.seed + 12)     # long walks without shutdown
+    # HowSets = {{}, {"close", "atexit"}}: about half of the walks never shut down (long, closed by the
+    # free-mode epilogue), the others shut down at a random point
+    behs = sim_behaviours(ctx, k, depth, ctx.seed + 11)
     ctx._phase("simulate", t0)
     t0 = time.time()
     forced = force_behaviours(ctx, behs, 100000)
